@@ -158,6 +158,16 @@ pub struct Case {
     /// (`#[emit::as_<stacked>] #[emit::as_<mode>] v: x`), props! / emit! sites
     #[serde(default)]
     pub stacked: Option<Mode>,
+    /// the fmt/value/sval/serde attribute in `mode` is written with `(inspect: false)` spelled out
+    /// (ignored for the other modes and for stacked sites); promised: exactly the bare attribute
+    #[serde(default)]
+    pub inspect_false: bool,
+}
+
+impl Case {
+    pub fn effective_inspect_false(&self) -> bool {
+        self.inspect_false && self.stacked.is_none() && matches!(self.mode, Mode::Display | Mode::Debug | Mode::Value | Mode::Sval | Mode::Serde)
+    }
 }
 
 pub const STATICS: [&str; 8] = ["", "static text", "info", "0000000000000001", "caf\u{e9} \u{1F600}", "line\nbreak\t\"q\"", "1.5", "null"];
